@@ -16,7 +16,9 @@ def run(res, a):
         pass
     try:
         import apimodel
-        apimodel.run(res, a.seed, a.tier)
+        st = apimodel.run(res, a.seed, a.tier)
+        res.cov.setdefault("input_distribution", {})["f_api"] = {"F": st.get("F", {}), "T": st.get("T", {}), "records": st.get("records", 0), "distinct": st.get("distinct", 0), "mismatches": st.get("mismatches", 0)}
+        res.cov["evaluations"] += st.get("records", 0)
     except ImportError:
         pass
     res.cov["rule"] = ("API traces on the real allocator: aligned grid (size x 2^k, k=0..26 x offset) on a dirty heap so that the fast small-page path, natural alignment, over-allocation and huge alignment all occur; oracles: mi_usable_size >= n, 16/8-byte minimal alignment, (p+offset) mod a = 0, interior pointers accepted by free/usable_size/expand/realloc (content and overlap oracles keep running), alignment kept by realloc_aligned. distinct = distinct traces (+ function-level records of harness/f_api.c compared with the Coq API model)")
